@@ -42,6 +42,12 @@ class BoomType(TypeError):
         self.tag = tag
 
 
+class BoomStop(StopIteration):
+    def __init__(self, tag):
+        super().__init__(tag)
+        self.tag = tag
+
+
 class BoomPipe(BrokenPipeError):
     def __init__(self, tag):
         BrokenPipeError.__init__(self, tag)
@@ -52,7 +58,7 @@ class BoomPipe(BrokenPipeError):
 
 
 BOOMS = {"Exception": Boom, "ValueError": BoomValue, "AssertionError": BoomAssert, "EOFError": BoomEOF, "TypeError": BoomType,
-         "BrokenPipeError": BoomPipe}
+         "BrokenPipeError": BoomPipe, "StopIteration": BoomStop}
 
 
 class HFilter:
@@ -71,9 +77,16 @@ class HFilter:
     def filter(self, item):
         s = cur_sim()
         s.user["c08_seen"].append((s.current.pid, item))
-        if item in self.plain and item not in self.fail:
+        if item in self.plain:
             s.yield_("filter-plain")
+            if item in self.fail:          # a plain (non-generator) filter raising from inside the call itself
+                s.count("fault.filter_raise")
+                raise BOOMS[self.exc](item)
             return ("P", item)
+        if item in self.fail and self.exc == "StopIteration":
+            # (a StopIteration escaping a generator is turned into RuntimeError by Python itself: only plain filters raise it)
+            s.count("fault.filter_raise")
+            raise BOOMS[self.exc](item)
         return self._gen(item)
 
     def _gen(self, item):
@@ -211,7 +224,8 @@ class C08:
             "coba_mp": coba_mp, "outs": outs, "plain": plain, "falsy": falsy, "fail": fail, "fail_after": fail_after,
             "consumer": consumer, "items_as": weighted(rng, [("list", 3), ("iter", 1)]),
             # the type of the error the user's filter raises (an assert in user code is an AssertionError ...)
-            "exc": weighted(rng, [("Exception", 4), ("ValueError", 2), ("AssertionError", 2), ("EOFError", 1), ("TypeError", 1), ("BrokenPipeError", 1)]),
+            "exc": weighted(rng, [("Exception", 4), ("ValueError", 2), ("AssertionError", 2), ("EOFError", 1), ("TypeError", 1), ("BrokenPipeError", 1),
+                                  ("StopIteration", 0 if coba_mp else 1.5)]),
             "knobs": {"feeder_delay": rng.random() < 0.5, "pipe_cap": weighted(rng, [(None, 4), (1, 1), (3, 1)]),
                       "p_stay": weighted(rng, [(0.0, 2), (0.5, 2), (0.9, 1)]),
                       "slow_main": rng.random() < 0.25, "log_lines": coba_mp and rng.random() < 0.7,
@@ -334,7 +348,8 @@ class C08:
         if cfg["consumer"]["mode"] == "abandon":
             if "close_exc" in obs:
                 return vio("close_raised", f"closing the output early raised {obs['close_exc']!r}")
-            if exc is not None and not (isinstance(exc, tuple(BOOMS.values())) and exc.tag in cfg["fail"]):
+            if exc is not None and not (isinstance(exc, tuple(BOOMS.values())) and exc.tag in cfg["fail"]) \
+                    and not (cfg.get("exc") == "StopIteration" and isinstance(exc, RuntimeError)):
                 return vio("unexpected_exception", f"abandoning raised {exc!r}")
             return None
         if cfg["fail"]:
@@ -342,6 +357,8 @@ class C08:
                 # only acceptable if the failing item was really never reached - impossible with full consumption
                 return vio("error_swallowed", f"filter raised {cfg.get('exc', 'Exception')} for items {cfg['fail']} but the call returned normally "
                                               f"with {len(got)} outputs", key=f"error_swallowed:{cfg.get('exc', 'Exception')}")
+            if cfg.get("exc") == "StopIteration" and isinstance(exc, RuntimeError) and "StopIteration" in str(exc):
+                return None       # Python itself reports a StopIteration that escapes into a generator as this RuntimeError
             if not (isinstance(exc, BOOMS[cfg.get("exc", "Exception")]) and exc.tag in cfg["fail"]):
                 return vio("wrong_exception", f"expected {cfg.get('exc', 'Exception')} for one of {cfg['fail']}, got {exc!r}")
             return None
